@@ -66,8 +66,9 @@ def make_harness(kind, root_names, universe, policy, max_bulk, traced=False, via
                 if problem is None and expected is not None and kind == "v2c" and not via_wrapper:
                     # same path, same database: the GETNEXT walk must give the same set
                     world.agent.flags.clear()
+                    first_request = world.n_requests + 1
                     p2, _ = run_walk(world, list(roots_all), db, False, expected)
-                    if p2 and not ("getnext:eomv-before-live" in world.agent.flags and known("F01")):
+                    if p2 and not (("getnext:eomv-before-live", first_request) in world.agent.flags and known("F01")):
                         problem = "GETNEXT walk disagrees: " + p2
                         h.last_problem = problem
             finally:
